@@ -176,3 +176,138 @@ def optimized_interpreter(ctx, games, clause, fields=None, label="python -O"):
             ctx.violation(clause, {"game": gen.desc(games[i // 2]), "prune": i % 2 == 0, "interpreter": label},
                           {"normal_interpreter": [x[:200] for x in a], label: [x[:200] for x in b]})
             return
+
+
+class _RecordingEnviron(dict):
+    pass
+
+
+def environment_independence(ctx, games, clause, fields=None):
+    """The result of a solve must not depend on the process environment: (a) the ambient `decimal` context (a host
+    application may have set ROUND_DOWN / ROUND_HALF_UP / a small precision), (b) environment variables.  For (b)
+    the variables the implementation READS while solving are recorded (os.environ is replaced by a recording
+    mapping for the duration of the call — the unchanged solver reads none); every variable read is then set to a
+    range of plausible values and the solve repeated.  Any difference from the plain run is a violation.
+    fields: indices of the result tuple to compare (None = all)."""
+    import decimal
+    import os
+    import impl
+
+    def pick(o):
+        if o["outcome"] != "ok":
+            return [o["outcome"]]
+        r = o["res"]
+        return [repr(r[k]) for k in (fields if fields is not None else range(len(r)))]
+
+    for g in games:
+        for prune in (True, False):
+            base = pick(impl.solve(g, prune, want_nodes=False))
+            ctx.case({"environment": "decimal contexts + environment variables read", "game": gen.desc(g), "prune": prune}, True)
+            # (a) decimal context
+            for label, kw in (("decimal ROUND_DOWN", dict(rounding=decimal.ROUND_DOWN)),
+                              ("decimal ROUND_HALF_UP", dict(rounding=decimal.ROUND_HALF_UP)),
+                              ("decimal ROUND_CEILING prec=9", dict(rounding=decimal.ROUND_CEILING, prec=9))):
+                saved = decimal.getcontext().copy()
+                try:
+                    c = decimal.getcontext()
+                    for k, v in kw.items():
+                        setattr(c, k, v)
+                    got = pick(impl.solve(g, prune, want_nodes=False))
+                finally:
+                    decimal.setcontext(saved)
+                if got != base:
+                    ctx.violation(clause, {"game": gen.desc(g), "prune": prune, "environment": label},
+                                  {"plain": [x[:200] for x in base], label: [x[:200] for x in got]})
+                    return
+            # (b) environment variables
+            reads = []
+            real = os.environ
+
+            class Rec(type(real)):
+                pass
+            class Probe(dict):
+                def __getitem__(self, k):
+                    reads.append(k)
+                    return real[k]
+                def get(self, k, d=None):
+                    reads.append(k)
+                    return real.get(k, d)
+                def __contains__(self, k):
+                    reads.append(k)
+                    return k in real
+                def keys(self):
+                    return real.keys()
+                def items(self):
+                    return real.items()
+                def __iter__(self):
+                    return iter(real)
+                def __len__(self):
+                    return len(real)
+                def copy(self):
+                    return dict(real)
+            os.environ = Probe()
+            try:
+                impl.solve(g, prune, want_nodes=False)
+            finally:
+                os.environ = real
+            keys = sorted({k for k in reads if isinstance(k, str) and not k.startswith(("PYTHON", "LC_", "LANG", "TZ"))})
+            ctx.count("environment_variables_read=%d" % len(keys))
+            for k in keys:
+                old = real.get(k)
+                for val in ("1e-2", "0.5", "0", "1", "3", "true", "DEBUG", ""):
+                    real[k] = val
+                    try:
+                        got = pick(impl.solve(g, prune, want_nodes=False))
+                    finally:
+                        if old is None:
+                            real.pop(k, None)
+                        else:
+                            real[k] = old
+                    if got != base:
+                        ctx.violation(clause, {"game": gen.desc(g), "prune": prune, "environment": f"{k}={val!r}"},
+                                      {"plain": [x[:200] for x in base], f"{k}={val}": [x[:200] for x in got]})
+                        return
+
+
+def described_at_solve_time(ctx, games, clause, fields=None):
+    """The game that is solved is the description the object holds WHEN solve() is called: the caller may build the
+    object first and complete / correct its final states afterwards — by editing the list it passed in, or by
+    assigning the attribute.  The result must equal the one of a fresh object built from the final description."""
+    import copy
+    import impl
+    from crlib import repo, quiet
+    tad = repo("tad")
+
+    def pick(r):
+        return [repr(r[k]) for k in (fields if fields is not None else range(len(r)))]
+
+    for g in games:
+        d = {k: v for k, v in g.items() if not k.startswith("_")}
+        n = len(d["players"])
+        finals = list(d["final_states"])
+        others = [s for s in range(n) if s not in finals]
+        for prune in (True, False):
+            ref = impl.solve(g, prune, want_nodes=False)
+            if ref["outcome"] != "ok":
+                continue
+            want = pick(ref["res"])
+            for how in ("list edited in place after construction", "attribute assigned after construction"):
+                dd = copy.deepcopy(d)
+                # a different, valid first guess of the final states
+                first = [others[0]] if others and how.startswith("attribute") else finals[:1] + ([others[-1]] if others else [])
+                dd["final_states"] = list(first)
+                ctx.case({"edit": how, "game": gen.desc(g), "prune": prune}, True)
+                try:
+                    with quiet():
+                        sg = tad.StochasticGame(**dd, prune_states=prune)
+                        if how.startswith("list"):
+                            dd["final_states"][:] = finals
+                        else:
+                            sg.final_states = list(finals)
+                        got = pick([list(x) if isinstance(x, (list, tuple)) else x for x in sg.solve()])
+                except Exception as e:  # noqa
+                    got = [type(e).__name__ + ": " + str(e)[:100]]
+                if got != want:
+                    ctx.violation(clause, {"game": gen.desc(g), "prune": prune, "edit": how, "first_final_states": first},
+                                  {"fresh_object": [x[:200] for x in want], "edited_object": [x[:200] for x in got]})
+                    return
